@@ -283,6 +283,21 @@ class CompileGroup:
             if r and r["outcome"] == "accept" and not r["alone"]:
                 ok, errors = self.confirm_alone(it)
                 results[it.id] = {"outcome": "accept" if ok else "reject", "errors": errors, "alone": True}
+        # the mirror image of the in-context rebuild above: a batch verdict "reject" may also come from state which an
+        # *earlier* expansion of the batch left behind.  A sample of the batch-rejected items is rebuilt alone; alone
+        # they must be rejected too (the sample is spread evenly over the list; which items depends on the list length).
+        k = 4 if self.tier == "quick" else 16
+        cand = [it for it in rej if results.get(it.id, {}).get("outcome") == "reject" and not results[it.id]["alone"]]
+        self.reject_sample_alone = 0
+        if cand:
+            step = max(1, len(cand) // k)
+            for it in cand[(len(items) % step)::step][:k]:
+                ok, errors = self.confirm_alone(it, cmd=reject_cmd)
+                self.reject_sample_alone += 1
+                if ok:
+                    results[it.id] = {"outcome": "accept", "errors": [], "alone": True, "batch_only_reject": True}
+                else:
+                    results[it.id]["alone"] = True
         for cid, errs in control_failed.items():
             results.setdefault(cid, {"outcome": "unknown", "errors": [], "alone": False})
             results[cid]["control_failed"] = True
